@@ -78,14 +78,17 @@ def resolve(n_jobs, c):
     return n_jobs
 
 
-def gen_nest(rng, depth, outer_flavour):
+def gen_nest(rng, depth, outer_flavour, explicit_procs=False):
     if depth >= 3 or rng.random() < 0.35:
         return None
     backends = [None, None, "threading"]
-    if outer_flavour == "T":
+    if explicit_procs and depth == 1:
+        # an explicit process backend requested from inside a THREAD worker must fall back to sequential; (inside
+        # process workers the stub shares one interpreter and one reusable executor, which real workers do not)
         backends += ["loky", "multiprocessing"]
     return {"n": rng.randint(1, 4), "n_jobs": rng.choice([1, 2, 3, -1]), "backend": rng.choice(backends),
-            "nest": gen_nest(rng, depth + 1, outer_flavour)}
+            "prefer": rng.choice([None, None, "threads", "processes"]),
+            "nest": gen_nest(rng, depth + 1, outer_flavour, explicit_procs)}
 
 
 def gen_case(rng):
@@ -100,7 +103,7 @@ def gen_case(rng):
             "pre_dispatch": rng.choice(["2*n_jobs", "all", "n_jobs", 3]), "return_as": "list", "managed": rng.random() < 0.3,
             "timeout": None,
             "calls": [{"n": n, "dur": [rng.choice([0.0, 0.01, 0.3, 1.0]) for _ in range(n)],
-                       "nest": gen_nest(rng, 1, fl) if fl != "G" else None}],
+                       "nest": gen_nest(rng, 1, fl, fl == "T" and resolve(n_jobs, c) not in ("ValueError", 1)) if fl != "G" else None}],
             "strategy": ds.draw_strategy(rng), "sched_seed": rng.randrange(1 << 31)}
     return case
 
@@ -165,6 +168,8 @@ def run_nested(w, c, i, nest, path=()):
     kw = {"n_jobs": nest["n_jobs"]}
     if nest["backend"]:
         kw["backend"] = nest["backend"]
+    if nest.get("prefer"):
+        kw["prefer"] = nest["prefer"]          # a soft hint: must not bring processes into a worker
     w.nest_level[me.name] += 1
     w.explicit_nest[me.name] += bool(nest["backend"])
     try:
@@ -176,7 +181,7 @@ def run_nested(w, c, i, nest, path=()):
         w.explicit_nest[me.name] -= bool(nest["backend"])
     ok = res == [("n", path, j) for j in range(nest["n"])]
     w.nested.append({"path": path, "depth": w.depth.get(me.name, 0), "backend": type(p._backend).__name__,
-                     "asked": nest["n_jobs"], "explicit": nest["backend"], "ok": ok, "thread": me.name})
+                     "asked": nest["n_jobs"], "explicit": nest["backend"], "prefer": nest.get("prefer"), "ok": ok, "thread": me.name})
     w.probes["nested_call_at_depth_%d" % w.depth.get(me.name, 0)] += 1
 
 
@@ -193,6 +198,18 @@ def run_case(case):
         jb.cpu_count = loky.cpu_count          # the real one, on the simulated machine
         jp.cpu_count = jp.__dict__.get("_orig_cpu_count", jp.cpu_count)
         w.run_nested = lambda cc, i, nest: run_nested(w, cc, i, nest)
+        # workers of the process flavours are main threads of their own (for MemmappingPool: daemonic) process
+        import multiprocessing as _mp, types as _types
+
+        def _is_proc_worker(prefixes):
+            me = s.me()
+            return me is not None and me.role == "worker" and me.name.startswith(prefixes)
+        orig_imt = jb.ParallelBackendBase.in_main_thread
+        jb.ParallelBackendBase.in_main_thread = staticmethod(
+            lambda: True if (s.me() is not None and s.me().name == "main") or _is_proc_worker(("lw", "mw")) else orig_imt())
+        real_cp = _mp.current_process
+        jb.mp = _types.SimpleNamespace(current_process=lambda: _types.SimpleNamespace(daemon=True) if _is_proc_worker(("mw",))
+                                       else real_cp())
     # keep the real joblib.parallel.cpu_count (install_seams replaces it): restore after seams
     import joblib.parallel as jp
     real_cpu_count = jp.cpu_count
